@@ -30,7 +30,7 @@ type caseC02 struct {
 	ArgHist int `json:"arg_hist,omitempty"`
 }
 
-var c02rels = []string{"independent", "equal", "negation", "p-identity", "q-identity", "both-identity", "double-of", "neg-double-of", "share-y", "self", "nil"}
+var c02rels = []string{"independent", "equal", "negation", "p-identity", "q-identity", "both-identity", "double-of", "neg-double-of", "share-y", "neg-share-y", "self", "nil"}
 
 func relatedBase(t *rapid.T, a pt.Base, rel string) pt.Base {
 	b := a
@@ -39,6 +39,9 @@ func relatedBase(t *rapid.T, a pt.Base, rel string) pt.Base {
 		b.Neg = !a.Neg
 	case "share-y":
 		b.Endo = (a.Endo + rapid.IntRange(1, 2).Draw(t, "e")) % 3
+	case "neg-share-y": // Q = -phi(P): y2 = -y1 and x2 = beta x1 (numerator and denominator of a unified slope vanish together)
+		b.Endo = (a.Endo + rapid.IntRange(1, 2).Draw(t, "e")) % 3
+		b.Neg = !a.Neg
 	}
 	return b
 }
@@ -54,7 +57,7 @@ var c02 = gen.Register(&gen.Check[caseC02]{
 		case "independent":
 			b = pt.BaseGen().Draw(t, "b")
 		case "equal":
-		case "negation", "share-y":
+		case "negation", "share-y", "neg-share-y":
 			b = relatedBase(t, a, c.Rel)
 		case "p-identity":
 			a, b = pt.Base{Kind: "id"}, pt.BaseGen().Draw(t, "b")
@@ -129,7 +132,7 @@ var c02 = gen.Register(&gen.Check[caseC02]{
 		}
 		return out
 	},
-	Required: []string{"aimed-intermediate", "rel:independent", "rel:equal", "rel:negation", "rel:p-identity", "rel:q-identity", "rel:both-identity", "rel:self", "rel:nil", "rel:share-y", "rel:double-of", "result:identity"},
+	Required: []string{"aimed-intermediate", "rel:independent", "rel:equal", "rel:negation", "rel:p-identity", "rel:q-identity", "rel:both-identity", "rel:self", "rel:nil", "rel:share-y", "rel:neg-share-y", "rel:double-of", "result:identity"},
 	Run: func(c caseC02, o *gen.Obs) error {
 		hostileCaller()
 		p, err := pt.Build(c.P)
